@@ -5,11 +5,12 @@ import TLVerif.Codec.Ops.Misc
 import TLVerif.Codec.Ops.HandShape
 import TLVerif.Codec.Ops.Rand
 import TLVerif.Codec.Ops.Access
+import TLVerif.Codec.Ops.Result
 /-! Line-protocol handler of the `codec` family. Stateful: `codec.desc` lines register descriptors;
 every other op is answered by the first per-aspect handler (Ops/*.lean) that recognises it. -/
 namespace TLVerif.Codec
 
-def opHandlers : List OpHandler := [handleTL1, handleTL2, handleJson, handleMisc, handleHandShape, handleRand, handleAccess]
+def opHandlers : List OpHandler := [handleTL1, handleTL2, handleJson, handleMisc, handleHandShape, handleRand, handleAccess, handleResult]
 
 def firstSome (st : DState) (op : String) (args : List String) : List OpHandler → String
   | [] => "bad-op"
